@@ -12,6 +12,12 @@ Addresses are element offsets (`Int`) into one flat memory; `sizeof(BaseType)` i
 the C++ does.  No Mathlib here (linked into the driver).
 -/
 import Mahotas.Model.Basic
+import Mahotas.Model.FilterIter
+import Mahotas.Model.DType
+import Mahotas.Model.C04
+import Mahotas.Model.C07
+import Mahotas.Model.C13
+import Mahotas.Model.C14
 namespace Mahotas.C08
 open Mahotas
 
@@ -240,6 +246,242 @@ def producesCopy : String → Bool
 def inplaceTarget (flag : Bool) (calls : List String) : Target :=
   if !flag && calls.all producesCopy && !calls.isEmpty then .copy else .user
 
+/-! ## T2 / T3 — kernels over views
+
+Every neighbourhood kernel of `_morph.cpp`, `_convolve.cpp`, `_labeled.cpp` has the shape
+`for (i = 0; i != N; ++i, ++rpos, filter.iterate_both(iter)) { … filter.retrieve(iter, j, val) … }`:
+the array is read through its iterator (`*iter`) and through `*(&*iter + offsets[j])`, where the offsets
+were multiplied with the strides of the array handed to the `filter_iterator` constructor. The models below
+are written against views: the pointer is `iterPtr` (the transliterated `operator++`), the offset table is the
+transliterated `init_filter_offsets`/`iterate_both` of `Model/FilterIter.lean`, outputs start unwritten
+(`none`, F15). -/
+
+/-- `&*iter` at loop iteration `i` (after `i` applications of `operator++`) -/
+def iterPtr (v : View) (i : Nat) : Int := ((Iter.begin v).incrN i).data
+
+/-- a constructed `filter_iterator<T>` -/
+structure FiltV (α : Type) where
+  fi : FilterIter.FIter
+  /-- `PyArray_DIMS(array)` -/
+  ashape : List Nat
+  /-- `PyArray_STRIDES(array)` in elements: what `init_filter_offsets` multiplies the coordinate offsets with -/
+  astrides : List Int
+  /-- `filter_data_` -/
+  fdata : Array α
+
+/-- the filter argument as the constructor reads it with `aligned_array<T>::iterator fiter(filter)` -/
+def filtVals {α : Type} (mF : Int → α) (vF : View) : List α :=
+  (List.range (shapeSize vF.shape)).map (readIter mF vF)
+
+/-- the constructor of `filter_iterator` (`_filters.h`). `compress`: footprint `!!*fiter` and the compressed
+copy of the data are read through the filter's own iterator; otherwise `footprint = 0` (every entry takes part)
+and `filter_data_` is the raw data pointer of the filter, indexed as `filter_data_[j]`. -/
+def mkFiltV {α : Type} (isNZ : α → Bool) (vA : View) (mF : Int → α) (vF : View) (m : Mode) (compress : Bool) :
+    FiltV α :=
+  let n := shapeSize vF.shape
+  let vals := filtVals mF vF
+  { fi := FilterIter.mkFIter m vA.shape vF.shape
+            (if compress then (vals.map isNZ).toArray else Array.replicate n true)
+    ashape := vA.shape
+    astrides := vA.strides
+    fdata := if compress then (vals.filter isNZ).toArray
+             else ((List.range n).map fun (j : Nat) => mF (vF.base + (j : Int))).toArray }
+
+/-- `retrieve(iterator, j, val)` at loop iteration `i`, `&*iterator = ptr`: `none` = `border_flag_value`
+(or a table index past the end, which F6 excludes) -/
+def FiltV.retrieve {α : Type} (fv : FiltV α) (mem : Int → α) (ptr : Int) (i j : Nat) : Option α :=
+  match FilterIter.retrieve fv.fi (FilterIter.stateAfter fv.fi fv.ashape i) j with
+  | some (some off) => some (mem (ptr + FilterIter.elemOffset fv.astrides off))
+  | _ => none
+
+/-- what the inner loop `for (j = 0; j != N2; ++j)` sees: `(retrieve(iter, j, ·), filter[j])` -/
+def FiltV.neigh {α : Type} (fv : FiltV α) (d : α) (mem : Int → α) (ptr : Int) (i : Nat) : List (Option α × α) :=
+  (List.range fv.fi.size).map fun j => (fv.retrieve mem ptr i j, fv.fdata.getD j d)
+
+/-- `for (i = 0; i != N; ++i, ++rpos) *rpos = g(i);` on an output nobody has written yet -/
+def pixelLoop {β : Type} (N : Nat) (g : Nat → β) : Array (Option β) :=
+  (List.range N).foldl (fun res i => res.setIfInBounds i (some (g i))) (Array.replicate N none)
+
+/-- loops that only ever store `true` (`*rpos = true` / `*out = true`) into an output the caller zero-filled
+(`PyArray_FILLWBYTE(output, 0)` in `py_locminmax`, `output.fill(False)` in `labeled.borders`) -/
+def markLoop (N : Nat) (g : Nat → Bool) : Array (Option Bool) :=
+  (List.range N).foldl (fun res i => if g i then res.setIfInBounds i (some true) else res)
+    (Array.replicate N (some false))
+
+/-! ### erode, dilate, locmin_max (`_morph.cpp`) -/
+
+/-- inner loop of `erode<T>`: `value = min(value, erode_sub(arr_val, filter[j])); if (value == min) break;`
+(`arr_val = T()` when nothing is retrieved) -/
+def erodeInner (dt : DT) : List (Option Int × Int) → Int → Int
+  | [], v => v
+  | ab :: t, v =>
+    let v' := min v (erodeSub dt (ab.1.getD 0) ab.2)
+    if v' = dt.lo then v' else erodeInner dt t v'
+
+/-- `erode<T>(res, array, Bc)` as repaired (empty element: `std::fill(rpos, rpos + N, max)`) -/
+def erodeView (dt : DT) (mA : Int → Int) (vA : View) (mB : Int → Int) (vB : View) : Array (Option Int) :=
+  let N := shapeSize vA.shape
+  let fv := mkFiltV (fun x => x != 0) vA mB vB .nearest dt.isBool
+  if fv.fi.size = 0 then pixelLoop N fun _ => dt.hi
+  else pixelLoop N fun i => erodeInner dt (fv.neigh 0 mA (iterPtr vA i) i) dt.hi
+
+/-- `res` as `_get_output` hands it to the kernels: a C-contiguous array of the input's shape -/
+def outView (shape : List Nat) : View := { base := 0, shape := shape, strides := cStrides shape, carray := true }
+
+/-- one `j` of the inner loop of `dilate<T>`: `nval = dilate_add(value, filter[j]); retrieve(rpos, j, arr_val);
+if (nval > arr_val) filter.set(rpos, j, nval);` on the flat output (`rpos = res.data() + i`) -/
+def dilateStep (dt : DT) (fv : FiltV Int) (value : Int) (i : Nat) (res : Array (Option Int)) (j : Nat) :
+    Array (Option Int) :=
+  let nval := dilateAdd dt value (fv.fdata.getD j 0)
+  match FilterIter.retrieve fv.fi (FilterIter.stateAfter fv.fi fv.ashape i) j with
+  | some (some off) =>
+    let a := ((i : Int) + FilterIter.elemOffset fv.astrides off).toNat
+    if nval > ((res.getD a none).getD 0) then res.setIfInBounds a (some nval) else res
+  | _ => res
+
+/-- `dilate<T>(res, array, Bc)`: `array` is read only as `*iter`; the filter is built on `res` -/
+def dilateView (dt : DT) (mA : Int → Int) (vA : View) (mB : Int → Int) (vB : View) : Array (Option Int) :=
+  let N := shapeSize vA.shape
+  let fv := mkFiltV (fun x => x != 0) (outView vA.shape) mB vB .nearest dt.isBool
+  let res := pixelLoop N fun _ => dt.lo                     -- `std::fill(rpos, rpos + res.size(), min)`
+  if fv.fi.size = 0 then res else
+  (List.range N).foldl (fun res i =>
+    let value := readIter mA vA i
+    if value = dt.lo then res
+    else (List.range fv.fi.size).foldl (dilateStep dt fv value i) res) res
+
+/-- inner loop of `locmin_max<T>`: `goto skip_to_next` as soon as a neighbour beats `cur` -/
+def locInner (isMin : Bool) (cur : Int) : List (Option Int × Int) → Bool
+  | [] => true
+  | ab :: t =>
+    let a := ab.1.getD 0
+    if (isMin && decide (a < cur)) || (!isMin && decide (a > cur)) then false else locInner isMin cur t
+
+/-- `locmin_max<T>(res, array, Bc, is_min)` as repaired: the filter is built from `array` -/
+def locView (isMin : Bool) (mA : Int → Int) (vA : View) (mB : Int → Int) (vB : View) : Array (Option Bool) :=
+  let fv := mkFiltV (fun x => x != 0) vA mB vB .nearest true
+  markLoop (shapeSize vA.shape) fun i => locInner isMin (readIter mA vA i) (fv.neigh 0 mA (iterPtr vA i) i)
+
+/-! ### convolve, rank_filter, mean_filter, template_match (`_convolve.cpp`), borders (`_labeled.cpp`) -/
+
+/-- inner loop of `convolve<T>`: `if (fiter.retrieve(iter, j, val)) cur += double(val)*fiter[j];` -/
+def convInner {α : Type} [Add α] [Mul α] (l : List (Option α × α)) (zero : α) : α :=
+  l.foldl (fun cur ab => match ab.1 with | some v => cur + v * ab.2 | none => cur) zero
+
+/-- `convolve<T>(array, filter, result, mode)`; `cast` is the final `T(cur)` -/
+def convolveView {α : Type} [Add α] [Mul α] (zero : α) (isZero : α → Bool) (cast : α → α) (m : Mode)
+    (mA : Int → α) (vA : View) (mW : Int → α) (vW : View) : Array (Option α) :=
+  let fv := mkFiltV (fun x => !isZero x) vA mW vW m true
+  pixelLoop (shapeSize vA.shape) fun i => cast (convInner (fv.neigh zero mA (iterPtr vA i) i) zero)
+
+/-- the samples `rank_filter` / `mean_filter` collect: `if (retrieve) …val… else if (mode == ExtendConstant) …cval…`
+(`cval = 0`: the wrappers accept no other value) -/
+def gatherInner (m : Mode) (l : List (Option Int × Int)) : List Int :=
+  l.filterMap fun ab => match ab.1 with
+    | some v => some v
+    | none => if m = .constant then some 0 else none
+
+/-- `rank_filter<T>`: nothing is written when `rank` is outside `[0, N2)` (the wrapper now raises first);
+a pixel is `none` when `nth_element` has no `currank`-th sample -/
+def rankView (m : Mode) (rank : Int) (mA : Int → Int) (vA : View) (mB : Int → Int) (vB : View) :
+    Array (Option Int) :=
+  let N := shapeSize vA.shape
+  let fv := mkFiltV (fun x => x != 0) vA mB vB m true
+  let N2 := fv.fi.size
+  if rank < 0 ∨ rank ≥ (N2 : Int) then Array.replicate N none
+  else (pixelLoop N fun i =>
+    let s := gatherInner m (fv.neigh 0 mA (iterPtr vA i) i)
+    C07.nthElement s (C07.curRank s.length N2 rank.toNat)).map fun o => o.bind id
+
+/-- `mean_filter<T>`: `(sum, n)` per pixel, the output is `sum / n` in double -/
+def meanView (m : Mode) (mA : Int → Int) (vA : View) (mB : Int → Int) (vB : View) : Array (Option (Int × Nat)) :=
+  let fv := mkFiltV (fun x => x != 0) vA mB vB m true
+  pixelLoop (shapeSize vA.shape) fun i =>
+    let s := gatherInner m (fv.neigh 0 mA (iterPtr vA i) i)
+    (s.foldl (· + ·) 0, s.length)
+
+/-- inner loop of `template_match<T>` (`just_equality = false`) -/
+def tmInner (l : List (Option Int × Int)) : Int :=
+  l.foldl (fun diff2 ab => match ab.1 with
+    | some val =>
+      let tj := ab.2
+      let delta := if val > tj then val - tj else tj - val
+      diff2 + delta * delta
+    | none => diff2) 0
+
+/-- `template_match<T>(res, f, t, mode, false)`: `filter_iterator(f, t, mode, compress = false)`, so `fiter[j]` is
+the raw `t.data()[j]` (the wrapper passes a C-contiguous template since 6f6fc49) -/
+def tmView (m : Mode) (mA : Int → Int) (vA : View) (mT : Int → Int) (vT : View) : Array (Option Int) :=
+  let fv := mkFiltV (fun x => x != 0) vA mT vT m false
+  pixelLoop (shapeSize vA.shape) fun i => tmInner (fv.neigh 0 mA (iterPtr vA i) i)
+
+/-- `borders<T>`: `if (fiter.retrieve(iter, j, val) && (val != cur)) { *out = true; break; }` -/
+def bordersView (m : Mode) (mA : Int → Int) (vA : View) (mB : Int → Int) (vB : View) : Array (Option Bool) :=
+  let fv := mkFiltV (fun x => x != 0) vA mB vB m true
+  markLoop (shapeSize vA.shape) fun i =>
+    let cur := readIter mA vA i
+    (fv.neigh 0 mA (iterPtr vA i) i).any fun ab => match ab.1 with | some v => v != cur | none => false
+
+/-! ### `at_flat` kernels: hitmiss, cwatershed (`_morph.cpp`) -/
+
+/-- the array as a kernel sees it that only ever calls `at_flat(i)`, `0 ≤ i < N` -/
+def flatImg {α : Type} (mem : Int → α) (v : View) : Img α :=
+  { shape := v.shape, data := ((List.range (shapeSize v.shape)).map (readAtFlat mem v)).toArray }
+
+/-- `hitmiss`'s neighbour table: `Bc` is walked with its iterator, `*Bi != 2` entries give
+`delta = input.pos_to_flat(Bi.position() - centre)` and the required value -/
+def hmTable (vA : View) (mB : Int → Int) (vB : View) : List (Int × Int) :=
+  (List.range (shapeSize vB.shape)).filterMap fun j =>
+    let b := readIter mB vB j
+    if b == 2 then none
+    else some (vA.posToFlat (subPos (((Iter.begin vB).incrN j).position.map Int.ofNat) (centreOf vB.shape)), b)
+
+/-- `hitmiss<T>(res, input, Bc)`: loop control (`flat_to_pos`, margins, `slack`) depends on the dimensions only and is
+taken from `C14.hmEvaluated`; the input is read as `input.at_flat(i + delta)` -/
+def hitmissView (mA : Int → Int) (vA : View) (mB : Int → Int) (vB : View) : Array (Option Int) :=
+  let tab := hmTable vA mB vB
+  pixelLoop (shapeSize vA.shape) fun i =>
+    if C14.hmEvaluated vA.shape vB.shape (vA.flatToPos (i : Int)) then
+      (if tab.all fun e => readAtFlat mA vA ((i : Int) + e.1).toNat == e.2 then 1 else 0)
+    else 0
+
+/-- `cwatershed<T>`: the surface and the markers are read as `at_flat(i)` only (marker scan, `array.at_flat(npos)`),
+the structuring element through its iterator; everything else works on flat indices of the C-contiguous outputs
+(zero-filled since 57cffc7) -/
+def cwatershedView (mS : Int → Int) (vS : View) (mM : Int → Int) (vM : View) (mB : Int → Int) (vB : View) :
+    C04.MSt :=
+  C04.cwatershedModel (flatImg mS vS) (flatImg mM vM) vB.shape (filtVals mB vB).toArray
+
+/-! ### bbox, center_of_mass -/
+
+/-- generic `bbox<T>`: `*pos` and `pos.position()` of the array iterator -/
+def bboxGenericView (mA : Int → Int) (vA : View) : List Int :=
+  C13.bboxFinish ((List.range (shapeSize vA.shape)).foldl (fun ext i =>
+    if readIter mA vA i ≠ 0 then C13.bboxUpdate ext (((Iter.begin vA).incrN i).position.map Int.ofNat) else ext)
+    (C13.bboxInit vA.shape))
+
+/-- `py_bbox`: `carray2_bbox` walks the raw data pointer when the array is a 2-D C-array, `bbox<T>` otherwise -/
+def bboxView (mA : Int → Int) (vA : View) : List Int :=
+  match vA.carray, vA.shape with
+  | true, [N0, N1] => C13.bboxFast N0 N1 ((List.range (N0 * N1)).map fun (k : Nat) => mA (vA.base + (k : Int)))
+  | _, _ => bboxGenericView mA vA
+
+/-- `center_of_mass<T>`: `*pos` of the iterator, `pos.index_rev(j)`; `labels` is a C-contiguous `int32` copy made by the
+wrapper and indexed as `labels[i]` -/
+def comView {α : Type} (ops : C13.NumOps α) (mA : Int → α) (vA : View) (labels : List Int) : List α :=
+  C13.comModelG ops vA.shape ((List.range (shapeSize vA.shape)).map (readIter mA vA)) labels
+
+/-! ### distance (`distance.py` as repaired: one 1-D pass per line, each line addressed by its own strides) -/
+
+/-- the line of `f` through `p` along `axis`: a `(1, n)` view whose only non-trivial stride is the array's stride
+on that axis -/
+def lineView (v : View) (axis : Nat) (p : List Nat) : View :=
+  { base := v.addr (p.set axis 0), shape := [v.shape.getD axis 0], strides := [v.strides.getD axis 0] }
+
+/-- what `_distance.dt` reads from one line (`f[i*stride]`) -/
+def lineVals {α : Type} (mem : Int → α) (v : View) (axis : Nat) (p : List Nat) : List α :=
+  (List.range (v.shape.getD axis 0)).map fun t => mem ((lineView v axis p).addr [t])
+
 /-! ### driver -/
 
 def viewOf (a : Args) : View :=
@@ -278,6 +520,46 @@ def handle (a : Args) : String :=
     let mL : Int → Int := fun ad => lmem.getD ad.toNat 0
     let r := labeledFoldView (fun (x r : Int) => x + r) 0 (a.nat "maxlabel") mA vA mL vL
     s!"sum={showInts r.toList}"
+  | "kview" =>
+    -- a kernel over views: `amem/abase/ashape/astrides/acarray` the array, `b…` the filter (structuring element,
+    -- weights, template), `m…` the markers (cwatershed); memories are integer lists indexed by address
+    let mk := fun (pre : String) =>
+      let mem := (a.ints (pre ++ "mem")).toArray
+      let v : View := { base := a.int (pre ++ "base"), shape := a.nats (pre ++ "shape"),
+                        strides := a.ints (pre ++ "strides"), carray := a.nat (pre ++ "carray") == 1 }
+      ((fun (ad : Int) => if ad < 0 then (0 : Int) else mem.getD ad.toNat 0), v)
+    let (mA, vA) := mk "a"
+    let (mB, vB) := mk "b"
+    let dt := DT.ofName (a.str "dt")
+    let m := (Mode.ofCode (a.nat "mode")).getD .nearest
+    let ob := fun (r : Array (Option Bool)) => showOptInts (r.toList.map fun o => o.map fun b => if b then (1 : Int) else 0)
+    match a.str "kernel" with
+    | "erode" => s!"out={showOptInts (erodeView dt mA vA mB vB).toList}"
+    | "dilate" => s!"out={showOptInts (dilateView dt mA vA mB vB).toList}"
+    | "locmax" => s!"out={ob (locView false mA vA mB vB)}"
+    | "locmin" => s!"out={ob (locView true mA vA mB vB)}"
+    | "convolve" => s!"out={showOptInts (convolveView 0 (fun x => x == 0) id m mA vA mB vB).toList}"
+    | "rank" => s!"out={showOptInts (rankView m (a.int "rank") mA vA mB vB).toList}"
+    | "mean" =>
+      let r := (meanView m mA vA mB vB).toList
+      s!"sum={showOptInts (r.map fun o => o.map (·.1))} n={showOptInts (r.map fun o => o.map fun x => (x.2 : Int))}"
+    | "tm" => s!"out={showOptInts (tmView m mA vA mB vB).toList}"
+    | "borders" => s!"out={ob (bordersView m mA vA mB vB)}"
+    | "hitmiss" => s!"out={showOptInts (hitmissView mA vA mB vB).toList}"
+    | "bbox" => s!"out={showInts (bboxView mA vA)}"
+    | "com" =>
+      let ops : C13.NumOps Int := { zero := 0, add := (· + ·), mul := (· * ·), div := fun x _ => x, ofNat := Int.ofNat }
+      -- numerators and totals are exact integers; the division is left to the harness
+      let vals := (List.range (shapeSize vA.shape)).map (readIter mA vA)
+      let tot := vals.foldl (· + ·) 0
+      s!"num={showInts (comView ops mA vA [])} tot={tot}"
+    | "cwatershed" =>
+      let (mM, vM) := mk "m"
+      let r := cwatershedView mA vA mM vM mB vB
+      s!"out={showInts r.res.toList} lines={showBools r.lines.toList}"
+    | "line" =>
+      s!"out={showInts (lineVals mA vA (a.nat "axis") (a.nats "p"))}"
+    | k => s!"error=unknown-kernel-{k}"
   | "norm" =>
     match Norm.ofString (a.str "norm") with
     | none => "error=unknown-norm"
